@@ -278,5 +278,6 @@ func verifC16WideN(nb int) {
 	zzverif.Assert(gr[0].Cmp(want[0]) == 0 || guessed, "the garbler never returns a wrong value as success (unless the label was shifted by exactly R)")
 }
 
-func verifC16Wide8()  { verifC16WideN(8) }
-func verifC16Wide66() { verifC16WideN(66) }
+func verifC16Wide8()   { verifC16WideN(8) }
+func verifC16Wide66()  { verifC16WideN(66) }
+func verifC16Wide130() { verifC16WideN(130) }
